@@ -92,6 +92,7 @@ type peer struct {
 	done       chan struct{}
 	afterRef   bool
 	idleHook   chan struct{}
+	holdCap    bool // answer the next CAPABILITY command only after the command behind it has arrived
 	skipNext   bool
 	sawExists  chan struct{}
 	noEarlyCheck bool // the stray continuation request could not be ordered before the next command
@@ -126,8 +127,15 @@ func (p *peer) loop() {
 		return script.Refuse
 	}
 	s.Sendf("* OK [CAPABILITY %s] ready\r\n", p.cfg.caps())
+	var pushedBack *script.Command
 	for {
-		cmd, err := s.ReadCommand()
+		var cmd *script.Command
+		var err error
+		if pushedBack != nil {
+			cmd, pushedBack = pushedBack, nil
+		} else {
+			cmd, err = s.ReadCommand()
+		}
 		if err != nil {
 			if !script.IsEOF(err) && err != script.ErrTimeout && !strings.Contains(err.Error(), "closed") {
 				p.errf("framing the client's output failed: %v", err)
@@ -160,6 +168,18 @@ func (p *peer) loop() {
 		}
 		switch cmd.Name {
 		case "CAPABILITY":
+			p.mu.Lock()
+			hold := p.holdCap
+			p.holdCap = false
+			p.mu.Unlock()
+			if hold {
+				// the client has pipelined another command behind this one: it
+				// is on the wire before this answer (which still describes the
+				// capabilities in force now) goes out
+				if nx, err := s.ReadCommand(); err == nil {
+					pushedBack = nx
+				}
+			}
 			s.Sendf("* CAPABILITY %s\r\n%s OK done\r\n", p.cfg.caps(), cmd.Tag)
 		case "ENABLE":
 			if bytes.Contains(bytes.ToUpper(cmd.Raw), []byte("UTF8=ACCEPT")) && p.cfg.utf8Cap {
@@ -276,7 +296,7 @@ func (p *peer) check(cmd *script.Command) {
 
 func genStr(t *rapid.T, label string) string { return gen.Bytes(t, label, true).S }
 
-var calls = []string{"Select", "Create", "Rename", "List", "Status", "Append", "Search", "Fetch", "Store", "Copy", "GetQuota", "GetQuotaRoot", "SetMetadata", "GetMetadata", "Sort", "Thread", "Login2", "Search", "Append", "Idle", "Unauthenticate", "Enable", "Login2", "IdleWithQueued"}
+var calls = []string{"Select", "Create", "Rename", "List", "Status", "Append", "Search", "Fetch", "Store", "Copy", "GetQuota", "GetQuotaRoot", "SetMetadata", "GetMetadata", "Sort", "Thread", "Login2", "Search", "Append", "Idle", "Unauthenticate", "Enable", "Login2", "IdleWithQueued", "CapThenLogin2"}
 
 // prepare draws the arguments of one client call (in the test goroutine, as
 // rapid requires) and returns the call as a closure; errors returned by the
@@ -304,6 +324,23 @@ func prepare(t *rapid.T, c *imapclient.Client, name string) (desc string, do fun
 		return fmt.Sprintf("Login(%q,%q)", clip(u), clip(pw)), func() error { return c.Login(u, pw).Wait() }
 	case "Unauthenticate":
 		return "Unauthenticate()", func() error { return c.Unauthenticate().Wait() }
+	case "CapThenLogin2":
+		// CAPABILITY and LOGIN pipelined: the CAPABILITY response (the set in
+		// force before the login) reaches the client after it has sent LOGIN
+		// and before LOGIN completes; it says nothing about the set in force
+		// afterwards
+		u, pw := genStr(t, "user"), genStr(t, "pass")
+		return fmt.Sprintf("Capability() + Login(%q,%q) pipelined", clip(u), clip(pw)), func() error {
+			setHoldCap(c)
+			capCmd := c.Capability()
+			loginCmd := c.Login(u, pw)
+			_, cerr := capCmd.Wait()
+			lerr := loginCmd.Wait()
+			if cerr != nil {
+				return cerr
+			}
+			return lerr
+		}
 	case "Enable":
 		return "Enable(UTF8=ACCEPT)", func() error { _, err := c.Enable(imap.CapUTF8Accept).Wait(); return err }
 	case "Select":
@@ -453,6 +490,17 @@ func setIdleHook(c *imapclient.Client, hook chan struct{}) {
 	if p != nil {
 		p.mu.Lock()
 		p.idleHook = hook
+		p.mu.Unlock()
+	}
+}
+
+func setHoldCap(c *imapclient.Client) {
+	peersMu.Lock()
+	p := peers[c]
+	peersMu.Unlock()
+	if p != nil {
+		p.mu.Lock()
+		p.holdCap = true
 		p.mu.Unlock()
 	}
 }
